@@ -12,9 +12,38 @@ import contracts.duplicates as DU
 import contracts.builders_eam as BE
 import contracts.rawparser as RPc
 import contracts.registry as RGc
+import contracts.tableform_dups as TDc
+import contracts.potable_cli as CLIc
 FUNCTIONS = [(F_CP, 'ConfigParser._pair_species_func'), (F_CP, 'ConfigParser._check_for_duplicate_pairs'), (F_EB, 'EAM_Potential_Builder_FS._density_to_potential_form_dict'),
              (F_CP, '_RawConfigParser.has_option'),
-             (F_REG, 'Potential_Form_Registry._build_table_forms'), (F_REG, 'Potential_Form_Registry._build_potential_forms')]     # additions are tested with has_option(): own keys compared by normal form
+             (F_REG, 'Potential_Form_Registry._build_table_forms'), (F_REG, 'Potential_Form_Registry._build_potential_forms'),
+             (F_CP, '_TableFormSection.check_for_duplicate_table_forms'), (F_CP, 'ConfigParser.__init__')]     # additions are tested with has_option(): own keys compared by normal form
+
+def _count_lemmas():
+    import contracts.tableform_dups as TD
+    out = []
+    Sx = z3.Const('S', TD.StrL); n = z3.Int('n'); L = z3.String('L'); i, j = z3.Int('i'), z3.Int('j'); i0, j0 = z3.Int('sk_i'), z3.Int('sk_j'); L0 = z3.String('sk_L')
+    rel = lambda k: TD.relevant(Sx[k]); lab = lambda k: TD.label(Sx[k]); cnt = lambda l, m: TD.count_of(l, Sx, m)
+    def Lm(name, hyps, goal):
+        o = Obligation('C20/lemma/table-form-count/' + name, [n >= 0] + hyps, goal, kind='lemma', function='props/C20.py', carries_property=True); o.unfold_depth = 2; out.append(o)
+    nonneg = lambda m: z3.ForAll([L], cnt(L, m) >= 0)
+    mono_some = lambda m: z3.ForAll([i], z3.Implies(z3.And(0 <= i, i < m, rel(i)), cnt(lab(i), m) >= 1))
+    pairs = lambda m: z3.ForAll([i, j], z3.Implies(z3.And(0 <= i, i < j, j < m, rel(i), rel(j), lab(i) == lab(j)), cnt(lab(i), m) >= 2))
+    wit1 = lambda m: z3.ForAll([L], z3.Implies(cnt(L, m) >= 1, z3.Exists([i], z3.And(0 <= i, i < m, rel(i), lab(i) == L))))
+    wit2 = lambda m: z3.ForAll([L], z3.Implies(cnt(L, m) >= 2, z3.Exists([i, j], z3.And(0 <= i, i < j, j < m, rel(i), rel(j), lab(i) == L, lab(j) == L))))
+    # counts are non-negative
+    Lm('non-negative/base', [], cnt(L0, z3.IntVal(0)) >= 0)
+    Lm('non-negative/step', [nonneg(n)], cnt(L0, n + 1) >= 0)
+    # every relevant section is counted under its label
+    Lm('each-section-counted/step', [nonneg(n), mono_some(n), 0 <= i0, i0 < n + 1, rel(i0)], cnt(lab(i0), n + 1) >= 1)
+    # two relevant sections with one label: count >= 2  (acceptance is sound: count <= 1 for every label means there is no such pair)
+    Lm('a-pair-counts-twice/step', [nonneg(n), mono_some(n), pairs(n), 0 <= i0, i0 < j0, j0 < n + 1, rel(i0), rel(j0), lab(i0) == lab(j0)], cnt(lab(i0), n + 1) >= 2)
+    # count >= 1 has a witness, count >= 2 has a pair  (rejection is justified: the error is raised only when two sections share a label)
+    Lm('counted-once-has-a-section/base', [], z3.Not(cnt(L0, z3.IntVal(0)) >= 1))
+    Lm('counted-once-has-a-section/step', [wit1(n), cnt(L0, n + 1) >= 1], z3.Exists([i], z3.And(0 <= i, i < n + 1, rel(i), lab(i) == L0)))
+    Lm('counted-twice-has-a-pair/step', [wit1(n), wit2(n), nonneg(n), cnt(L0, n + 1) >= 2], z3.Exists([i, j], z3.And(0 <= i, i < j, j < n + 1, rel(i), rel(j), lab(i) == L0, lab(j) == L0)))
+    for o in out: o.instantiate_int_foralls = True
+    return out
 
 def lemmas():
     out = []
@@ -37,14 +66,16 @@ def lemmas():
     # (2) reversed pairs
     # (2) reversed pairs: ConfigParser._check_for_duplicate_pairs and _pair_species_func are under Engine A contracts (contracts/duplicates.py):
     #     accepted only if no two keys name the same unordered pair of stripped labels; the duplicate error is raised only if two do
-    out.append(S('C20', F_CP, 'ConfigParser.__init__', 'checked-at-construction', ['self._check_for_duplicates()']))
+    # both duplicate checks run at construction: postconditions of the Engine A contract of ConfigParser.__init__ (contracts/potable_cli.py)
     x1, y1, x2, y2 = z3.Strings('x1 y1 x2 y2')
     seen_hit = z3.Or(z3.And(x2 == x1, y2 == y1), z3.And(y2 == x1, x2 == y1))       # p2 == p1 or reversed(p2) == p1
     unordered = z3.Or(z3.And(x1 == x2, y1 == y2), z3.And(x1 == y2, y1 == x2))
     out.append(Obligation('C20/lemma/either-order-test-is-unordered-equality', [], seen_hit == unordered, kind='lemma', function='props/C20.py', carries_property=True))
     # (3) table forms: names compared after strip(); (4) registry: formula / table form / standard form label clashes
-    out.append(S('C20', F_CP, '_TableFormSection.check_for_duplicate_table_forms', 'names-compared-after-strip',
-                 ['label = cls._parse_name(section_name)', 'seen.setdefault(label, []).append(section_name)', 'if len(v) > 1:', 'raise ConfigParserDuplicateEntryException(msg)']))
+    # check_for_duplicate_table_forms is under an Engine A contract (contracts/tableform_dups.py): accepted only if no label names two [Table-Form:...]
+    # sections, where "names n sections" is the recursive count table_forms_named; the count says what the statement says (two lemmas, by induction on
+    # the number of sections): two relevant sections with one label <=> that label's count is at least 2
+    out.extend(_count_lemmas())
     out.append(S('C20', F_CP, '_TableFormSection._parse_name', 'strip', ['name = name.strip()', 'return name']))
     # label clashes: Potential_Form_Registry._build_table_forms / _build_potential_forms are under Engine A contracts (contracts/registry.py)
     out.append(S('C20', F_REG, 'Potential_Form_Registry.__init__', 'late-standard-names-reserved',
@@ -62,6 +93,11 @@ def lemmas():
     return out
 
 MUTANTS = [
+    (F_CP, 'ConfigParser.__init__', "self._check_for_duplicates()", "pass", 'post'),
+    (F_CP, '_TableFormSection.check_for_duplicate_table_forms', "if len(v) > 1:", "if len(v) > 2:", 'post'),
+    (F_CP, '_TableFormSection.check_for_duplicate_table_forms', "seen.setdefault(label, []).append(section_name)", "seen.setdefault(section_name, []).append(section_name)", 'preserve/0'),
+    (F_CP, '_TableFormSection.check_for_duplicate_table_forms', "if cls.is_relevant_section(section_name):", "if True:", 'call-pre'),
+    (F_CP, '_TableFormSection.check_for_duplicate_table_forms', "raise ConfigParserDuplicateEntryException(msg)", "pass", 'post'),
     (F_REG, 'Potential_Form_Registry._build_table_forms', "or d.name in self._late_standard_names", "", 'preserve/0'),
     (F_REG, 'Potential_Form_Registry._build_table_forms', "if d.name in self._potential_forms or d.name in table_forms", "if d.name in self._potential_forms", 'preserve/0'),
     (F_REG, 'Potential_Form_Registry._build_potential_forms', "if d.signature.label in potential_forms:", "if False:", 'preserve/0'),
